@@ -1,4 +1,5 @@
 //! Bounded exhaustive exploration harness for microscpi (see /verif/DESIGN.md).
+pub mod alloc_count;
 pub mod env;
 pub mod exec;
 pub mod ifaces;
